@@ -8,7 +8,7 @@ from rtflite.pagination.strategies.base import PageContext as _RealPageContext
 from vf.hlib import swapped
 
 
-def run_paginate(which, pages_of_rows, pageby_header, new_page=False, keys=None):
+def run_paginate(which, pages_of_rows, pageby_header, new_page=False, keys=None, table_attrs=None):
     n = len(pages_of_rows)
     keys = keys or {"g": ["G%d" % i for i in range(n)], "s": ["S%d" % i for i in range(n)]}
     df = minipl.Frame(dict(keys, v=["r%d" % i for i in range(n)]))
@@ -22,11 +22,18 @@ def run_paginate(which, pages_of_rows, pageby_header, new_page=False, keys=None)
     body = NS(page_by=None if which == 0 else ["g"], subline_by=["s"] if which == 2 else None, new_page=new_page,
               pageby_header=pageby_header)
     ctx = NS(rtf_page=NS(width=8.5, height=11.0, margin=[1, 1, 1, 1, 1, 1], nrow=10, orientation="portrait"),
-             rtf_body=body, df=df, col_widths=[1.0], table_attrs=None, removed_column_indices=None,
+             rtf_body=body, df=df, col_widths=[1.0], table_attrs=table_attrs, removed_column_indices=None,
              additional_rows_per_page=0)
     saved_calc = PBC.calculate_row_metadata
     PBC.calculate_row_metadata = lambda self, **kw: meta
-    page_standin = lambda **kw: NS(subline_header=None, pageby_header_info=None, group_boundaries=None, **kw)  # noqa: E731
+    def page_standin(**kw):
+        """namespace with the real PageContext's field defaults, overridden by what the strategy passes"""
+        fields = {}
+        for name, f in _RealPageContext.model_fields.items():
+            if not f.is_required():
+                fields[name] = f.default_factory() if f.default_factory is not None else f.default
+        fields.update(kw)
+        return NS(**fields)
     try:
         with swapped((_RealPageContext, page_standin)), minipl.substituted():
             return cls().paginate(ctx)
